@@ -259,6 +259,13 @@ func (r *runner) noteRestart(pre *blobpool.VerifDump, crash bool) {
 		for i := range want {
 			if have[i].Hash != want[i] {
 				r.fail("reopen_reproduces: account %d position %d differs after a clean restart", a, i)
+			} else if !sameFields(&pre.Index[addrs[a]][i], &have[i]) {
+				r.fail("reopen_reproduces: eviction fields of account %d position %d (tx %d) differ between the running and the reopened pool", a, i, r.tid(want[i]))
+			}
+		}
+		if len(want) > 0 && len(want) == len(pre.Index[addrs[a]]) {
+			if s0, s1 := pre.Spent[addrs[a]], post.Spent[addrs[a]]; s0 == nil || s1 == nil || !s0.Eq(s1) {
+				r.fail("reopen_reproduces: spent of account %d differs after a clean restart", a)
 			}
 		}
 	}
